@@ -16,7 +16,9 @@ def unit_name_set(units) -> list:
     out = []
     for u in units:
         nu = norm_units(u)
-        out.append(nu[0][0] if len(nu) == 1 and nu[0][1] == 1 else repr(nu))
+        from .core import num_close
+
+        out.append(nu[0][0] if len(nu) == 1 and num_close(nu[0][1], 1) else repr(nu))
     return sorted(out)
 
 
